@@ -470,27 +470,36 @@ class Evaluator:
 
     # ------------------------------------------------------------ enumerate
     def worlds(self, probe: Callable[[World], Any], limit: int = 400000) -> List[World]:
-        """all worlds over the variables `probe` touches (discovered lazily)"""
-        domains: Dict[Tuple, List] = {}
-        while True:
-            restart = False
-            keys = list(domains)
-            total = 1
-            for k in keys:
-                total *= len(domains[k])
-            if total > limit:
-                raise AnalysisError(f'world model too large ({total} worlds over {keys})')
-            out = []
-            for combo in itertools.product(*[domains[k] for k in keys]):
-                w = World(dict(zip(keys, combo)))
-                try:
-                    probe(w)
-                except NeedVar as nv:
-                    domains[nv.key] = nv.domain
-                    restart = True
-                    break
-                except OutOfGrid:
-                    pass
-                out.append(w)
-            if not restart:
-                return out
+        """all worlds over the variables `probe` touches: a decision-tree enumeration that
+        branches on a variable only on the paths where the evaluation actually reads it"""
+        out: List[World] = []
+        vals: Dict[Tuple, Any] = {}
+
+        def rec() -> None:
+            if len(out) > limit:
+                raise AnalysisError(f'world model too large (> {limit} worlds)')
+            w = World(dict(vals))
+            try:
+                probe(w)
+            except NeedVar as nv:
+                for v in nv.domain:
+                    vals[nv.key] = v
+                    rec()
+                del vals[nv.key]
+                return
+            except OutOfGrid:
+                pass
+            out.append(w)
+
+        rec()
+        return out
+
+    def touch(self, f, w: World) -> None:
+        """evaluate every atom of a formula (no short-circuit) so that all its variables are
+        part of the world"""
+        from .guards import atoms_of
+        for a in atoms_of(f):
+            try:
+                self.holds(('atom', a), w)
+            except OutOfGrid:
+                pass
